@@ -75,6 +75,9 @@ type clientScript struct {
 	// InProcess requests at a time, waits for a free slot (or its context)
 	// before reading on, and returns only after all workers have written their
 	// results.
+	// QueueAhead (with InProcess): the peer reads every request as soon as it
+	// arrives and queues it; the requests are then worked off InProcess at a time
+	QueueAhead bool
 	InProcess  int
 	SerialBase int
 }
@@ -364,6 +367,52 @@ func (c *simClient) implInProcess(ctx context.Context, in io.ReadCloser, out io.
 			plan = c.planFn(req)
 		}
 		c.plans = append(c.plans, plan)
+		if c.sc.QueueAhead {
+			// queue the request: a worker takes it when a slot is free
+			workers++
+			name := req.TestName
+			simrt.Go("simclient.inproc.queued-worker", func() {
+				defer func() {
+					workers--
+					select {
+					case allDone <- struct{}{}:
+					default:
+					}
+				}()
+				simrt.Yield("simclient.inproc.qslot")
+				got := false
+				select {
+				case slots <- struct{}{}:
+					got = true
+				default:
+				}
+				if !got {
+					select {
+					case slots <- struct{}{}:
+						simrt.AfterBlock("simclient.inproc.qslot")
+						got = true
+					case <-ctx.Done():
+						simrt.AfterBlock("simclient.inproc.qslot")
+					}
+				}
+				if got {
+					defer func() { <-slots }()
+				}
+				if got && (plan.DelayMs > 0 || plan.Never) {
+					d := time.Duration(plan.DelayMs) * time.Millisecond
+					if plan.Never {
+						d = 24 * time.Hour
+						c.faultFired["rpc-hangs-until-cancelled"]++
+					}
+					simrt.SleepCtx(ctx, d, "simclient.inproc.rpc")
+				}
+				if c.beforeAnswer != nil {
+					c.beforeAnswer(name)
+				}
+				c.writeAnswer(name, plan.AsError || ctx.Err() != nil, false)
+			})
+			continue
+		}
 		// wait for a free worker slot or cancellation
 		simrt.Yield("simclient.inproc.slot")
 		// (never enter a select with two ready cases: the runtime would toss its own coin)
